@@ -1,6 +1,7 @@
 """C08 — a failed mutation leaves the Gfa unchanged."""
 from .. import impl, gen, graphlab as GL
 from . import graphcommon as GC
+from .. import graph_oracle as GO
 
 DEPS = GC.DEPS
 MODEL_TARGETS = GC.MODEL_TARGETS
@@ -60,6 +61,12 @@ CORPUS = [
     ('gfa1', 1, ['S\ta\t*', 'S\tb\t*', 'L\ta\t+\tb\t+\t1M', 'P\tp\ta+,b+,c+\t1M', 'P\tp\ta+,b+\t2M,1M,3M', 'S\ta\t*', 'P\tb\ta+,b+\t1M']),
     ('gfa2', 0, ['S\ta\t10\t*', 'S\tb\t10\t*', 'E\te\ta+\tb+\t7\t10$\t0\t3\t*', 'O\to\ta+ b+', 'O\te\ta+ b+', 'U\tu\ta e', 'U\ta\tb', 'E\tu\ta+\tb-\t0\t1\t0\t1\t*']),
     ('gfa2', 2, ['S\ta\t10\t*', 'S\tb\t10\t*', 'E\te\ta+\tb+\t7\t10$\t0\t3\t*', 'O\to\ta+ b+', 'O\te\ta+ b+', 'U\tu\ta e', 'U\ta\tb', 'E\tu\ta+\tb-\t0\t1\t0\t1\t*']),
+    # a definition that is refused while a placeholder of its identifier is listed by groups: the placeholder stays, the
+    # groups keep pointing at it, and the corrected definition is taken afterwards
+    ('gfa2', 1, ['S\ta\t10\t*', 'S\tb\t10\t*', 'U\tu\te1 a', 'O\to\ta+ e1+ b+', 'E\te1\ta+\tb+\t5\t3\t0\t3\t*',
+                 'E\te1\ta+\tb+\t8$\t10$\t0\t3\t*', 'E\te1\ta+\tb+\t7\t10$\t0\t3\t*', 'U\tw\tg1', 'G\tg1\ta+\tb+\t-1\t*', 'G\tg1\ta+\tb+\t5\t*']),
+    ('gfa2', 3, ['S\ta\t10\t*', 'U\tu\ts2 a', 'S\ts2\t-5\t*', 'S\ts2\t5\tAC GT', 'S\ts2\t5\t*', 'O\to\ta+ e9+', 'E\te9\ta+\tzz\t0\t1\t0\t1\t*']),
+    ('gfa1', 1, ['P\tp\ta+,b+\t*', 'S\ta\t*\tLN:i:3', 'S\tb\tACGT\tLN:i:9', 'S\tb\tACGT', 'L\ta\t+\tb\t+\t1Q', 'L\ta\t+\tb\t+\t1M']),
 ]
 
 
@@ -68,11 +75,16 @@ def judge(case):
     G = g.Gfa(version=case['version'], vlevel=case['vlevel'])
     for k, op in enumerate(case['ops']):
         before = impl.value_or(lambda: full_state(G), None)
+        inv_before = impl.value_or(lambda: GO.check(G), [])
         r = GL.apply_op(G, op)
         if r[0] != 'ok':
             if r[1][0] != 'gfapy':
                 return [('operation %r raised a foreign exception' % (op,), 'gfapy.Error', impl.outcome_name(r), k)]
             after = impl.value_or(lambda: full_state(G), None)
+            # identity level: the references of the Gfa are to lines of the Gfa after the refusal as they were before it
+            inv_after = impl.value_or(lambda: GO.check(G), [])
+            if inv_after and not inv_before:
+                return [('after %r raised %s: %s' % (op, r[1][1], inv_after[0][0]), inv_after[0][1], inv_after[0][2], k)]
             if before != after:
                 names = ['references/collections', 'written text', 'version', 'identifiers', 'header line count']
                 d = [names[i] for i in range(5) if before is None or after is None or before[i] != after[i]]
